@@ -53,6 +53,25 @@ def model_check(ctx, name, consts, inv, subst=None, workers=8, timeout=3000, act
     return vlib.run_tlc(ctx, "MC_Router", cfg=cfg, workers=workers, timeout=budget, heap="24g", allow_timeout=True)
 
 
+def liveness(ctx, name, consts, props=("ComesToRest", "EveryAckArrives"), subst=None, workers=6, timeout=2400):
+    """Temporal properties under weak fairness of the router thread, the link tasks and the clients (MC_Router!FairSpec; the
+    buffer bounds are part of the next-state relation, there is no state constraint). Records the run in ctx.extra_coverage."""
+    c = dict(BASE); c.update(consts)
+    sb = dict(SUBST); sb.update(subst or {})
+    sb.setdefault("SubFilters", sb["Filters"])
+    cfg = write(ctx, "MC_RouterLive_" + name, cfg_text(c, sb, "SPECIFICATION FairSpec\nPROPERTIES %s\nCHECK_DEADLOCK FALSE\n" % " ".join(props)))
+    res = vlib.run_tlc(ctx, "MC_Router", cfg=cfg, workers=workers, timeout=timeout, heap="16g", allow_timeout=True, name="live_" + name)
+    run = {"config": name, "specification": "FairSpec (WF of router events, scheduling turns, every link and every client)", "properties": list(props),
+           "distinct": res.distinct, "generated": res.generated, "ok": res.ok, "exhaustive": not res.partial, "constants": {k: str(v) for k, v in consts.items()}}
+    if not res.ok:
+        ctx.violation("RouterSys.tla (model of the current router code) under fairness violates %s in configuration %s: the router does not come to rest / a reply never arrives"
+                      % (res.property_violated or props, name), {"tlc_counterexample": vlib.tlc_counterexample(res)[:30000]})
+    cov = dict(getattr(ctx, "extra_coverage", None) or {})
+    cov.setdefault("liveness_runs", []).append(run)
+    ctx.extra_coverage = cov
+    return res
+
+
 def gen_scripts(ctx, name, consts, want, depth, subst=None):
     c = dict(BASE); c.update(consts); c["EmitAt"] = depth
     sb = dict(SUBST); sb.update(subst or {})
